@@ -66,6 +66,15 @@ def _is_bool_expr(e, callee_of=None, depth=0):
     return False
 
 
+def _is_access_path(e):
+    """self.a.b / x.a: an attribute path from a name (no call, no subscript: those may build or select a new object)"""
+    if not isinstance(e, ast.Attribute):
+        return False
+    while isinstance(e, ast.Attribute):
+        e = e.value
+    return isinstance(e, ast.Name)
+
+
 def _beta(e):
     """(lambda a, b: E)(x, y)  ->  E with a, b replaced (no binder inside E may capture a name of x, y)"""
     class B(ast.NodeTransformer):
@@ -111,6 +120,7 @@ class Canon:
         self.inline = inline          # callable(call node) -> FunctionDef of a single-expression helper, or None
         self._depth = 0
         self.callee_of = None         # callable(call node) -> FunctionDef the call resolves to (for default arguments), or None
+        self.assign_of = None         # callable(Name node) -> the value expression of its single module-level assignment, or None
         self.lambda_of = None         # callable(Name node) -> Lambda equal to the one-expression helper (added since the review) it names, or None
         self.extra_ints = set()       # local names inferred to hold integers (see infer_int_locals)
         if int_names is None:
@@ -300,7 +310,7 @@ class Canon:
             if isinstance(v, (int, bytes, str)) and not isinstance(v, bool):
                 return ast.Constant(v)
             if isinstance(v, (tuple, list)) and 0 < len(v) <= 16 and all(isinstance(x, (int, bytes, str)) and not isinstance(x, bool) for x in v):
-                return ast.Tuple([ast.Constant(x) for x in v], ast.Load())
+                return (ast.List if isinstance(v, list) else ast.Tuple)([ast.Constant(x) for x in v], ast.Load())
         if isinstance(e, ast.Compare) and len(e.ops) > 1:
             # a <= b < c  is  a <= b and b < c  (the operands are values: impure calls keep their identity tag)
             parts = []
@@ -349,6 +359,19 @@ class Canon:
             if ft in _STRUCT_FUNCS and e.args and isinstance(e.args[0], ast.Constant) and isinstance(e.args[0].value, (str, bytes)) and e.args[0].value[:1] in ("!", b"!"):
                 v_ = e.args[0].value
                 e.args[0] = ast.Constant((">" if isinstance(v_, str) else b">") + v_[1:])      # network order is big-endian, standard sizes
+            if ft in _STRUCT_FUNCS and e.args and isinstance(e.args[0], ast.Constant) and isinstance(e.args[0].value, str):
+                import re as _re
+                f_ = e.args[0].value
+                x_ = _re.sub(r"(\d+)([xcbB?hHiIlLqQnNefdP])", lambda mo: mo.group(2) * int(mo.group(1)) if int(mo.group(1)) <= 16 else mo.group(0), f_)
+                if x_ != f_ and len(x_) <= 24:
+                    e.args[0] = ast.Constant(x_)         # '>8H' is '>HHHHHHHH'
+            if isinstance(e.func, ast.Attribute) and e.func.attr == "join" and len(e.args) == 1 and not e.keywords and isinstance(e.args[0], ast.ListComp):
+                e.args[0] = ast.GeneratorExp(e.args[0].elt, e.args[0].generators)      # join only iterates
+            if isinstance(e.func, ast.Attribute) and e.func.attr in ("pack", "unpack", "unpack_from", "pack_into", "iter_unpack") and isinstance(e.func.value, ast.Name) and self.assign_of is not None:
+                a_ = self.assign_of(e.func.value)
+                if isinstance(a_, ast.Call) and norm(a_.func) in ("struct.Struct", "Struct") and len(a_.args) == 1 and isinstance(a_.args[0], ast.Constant) and not a_.keywords:
+                    # S = struct.Struct(fmt) at module level; S.pack(x) is struct.pack(fmt, x)
+                    return self._fold(ast.Call(ast.Attribute(ast.Name("struct", ast.Load()), e.func.attr, ast.Load()), [ast.Constant(a_.args[0].value)] + list(e.args), list(e.keywords)))
             if (ft == "Decimal" or ft.endswith(".Decimal")) and not e.args and not e.keywords:
                 e.args = [ast.Constant(0)]
             if self.callee_of is not None and e.keywords:
@@ -1031,7 +1054,8 @@ class SymWalker:
 
     def _bind(self, target, value):
         if isinstance(target, ast.Name):
-            if target.id in self.keep or value is None or _size(value) > MAX_NODES:
+            pure_path = value is not None and _is_access_path(value)       # fb = self.filter_bytes: the same object under another name
+            if (target.id in self.keep and not pure_path) or value is None or _size(value) > MAX_NODES:
                 self.env.pop(target.id, None)
             else:
                 self.env[target.id] = value
@@ -1658,7 +1682,7 @@ def make_const_of(ctx, fi):
                     if isinstance(val, (int, bytes, str)) and not isinstance(val, bool):
                         v = val
                     elif isinstance(val, (tuple, list)) and 0 < len(val) <= 16 and all(isinstance(x, str) for x in val):       # tables of names
-                        v = tuple(val)
+                        v = val
                 except Exception:
                     v = None
         cache[t] = v
@@ -1737,6 +1761,25 @@ def expanded(ctx, fi):
         except RecursionError:
             cache[fi.qualname] = (fi.node, [])
     return cache[fi.qualname][0]
+
+
+def make_assign_resolver(ctx, fi):
+    """Name -> value expression of the module-level constant it names (single assignment, not a local of fi)"""
+    locals_ = set(fi.params()) | set(df.assignments(fi.node))
+
+    def resolve(name):
+        if name.id in locals_:
+            return None
+        try:
+            r = ctx.p.resolve_global(fi.module, name.id)
+        except Exception:
+            return None
+        if isinstance(r, tuple) and r[0] == "const":
+            vals = r[1].assigns.get(r[2], [])
+            if len(vals) == 1:
+                return vals[0]
+        return None
+    return resolve
 
 
 def make_lambda_resolver(ctx, fi):
@@ -1858,7 +1901,9 @@ def walk(ctx, fi, leaf=None, keep=(), body=None, int_names=None, inline=False, f
     """convenience: canonical walker of a function with module constants resolved"""
     node = expanded(ctx, fi) if body is None else fi.node
     keep = set(keep) | (mutated_locals(node) - set(fi.params()))
-    w = SymWalker(node, Canon(make_const_of(ctx, fi), int_names, make_inliner(ctx, fi) if inline else None), leaf, keep=keep, feasible=feasible)
+    canon = Canon(make_const_of(ctx, fi), int_names, make_inliner(ctx, fi) if inline else None)
+    canon.assign_of = make_assign_resolver(ctx, fi)
+    w = SymWalker(node, canon, leaf, keep=keep, feasible=feasible)
     w.run(body)
     return w
 
@@ -2124,10 +2169,38 @@ def _rename_formula(f, ren, canon=None):
     if f in (True, False) or f[0] == "set":
         return f
     if f[0] == "op":
-        return ("op", _resort_atom(_rename_text(f[1], ren), canon) if ren else f[1])
+        if not ren:
+            return f
+        t = _resort_atom(_rename_text(f[1], ren), canon)
+        flipped = _sign_normalise_lt(t, canon)
+        return flipped if flipped is not None else ("op", t)
     if f[0] == "not":
         return ("not", _rename_formula(f[1], ren, canon))
     return (f[0], tuple(_rename_formula(g, ren, canon) for g in f[1]))
+
+
+def _sign_normalise_lt(t, canon):
+    """`-a + b < K` with a sorting first: the integer atom not(`a - b < 1 - K`) -- the sign convention of difference
+    atoms depends on which term sorts first, and renaming locals can change that"""
+    import re
+    m = re.fullmatch(r"(.+) < (-?\d+)", t)
+    if m is None or canon is None:
+        return None
+    try:
+        left = ast.parse(m.group(1), mode="eval").body
+    except SyntaxError:
+        return None
+    k = int(m.group(2))
+    lin = canon._lin(left, True)
+    if lin is None or not lin[0] or len(lin[0]) < 2:
+        return None
+    terms, const = lin
+    first = sorted(terms)[0]
+    if terms[first][0] >= 0:
+        return None
+    neg = {kk: [-c, tt] for kk, (c, tt) in terms.items()}
+    d = canon._unlin(neg, 0)
+    return ("not", ("op", "%s < %d" % (norm(d), -(k - const) + 1)))
 
 
 def _rename_formula_old(f, ren):
@@ -2892,6 +2965,7 @@ def reference_status(ctx, fi, ref_source, ref_names, int_names=None, leaf=None, 
                       (lambda c: ref_funcs.get(c.func.id) if isinstance(c.func, ast.Name) and c.func.id != "_" else None) if inline else None)
     canon_code.callee_of = canon_ref.callee_of = make_callee_resolver(ctx, fi)
     canon_code.lambda_of = make_lambda_resolver(ctx, fi)
+    canon_code.assign_of = make_assign_resolver(ctx, fi)
     s_code = summarize(expanded(ctx, fi), canon_code, leaf, keep)
     best = None
     for ref_name in ref_names:
